@@ -24,6 +24,7 @@ type Gate interface {
 
 type gateImpl struct {
 	count         uint16
+	initialCount  uint16 // the count the gate was created with, restored by Clear
 	arrived       uint16
 	gateCondition *sync.Cond
 	canceled      bool
@@ -120,12 +121,18 @@ func (g *gateImpl) Clear() {
 	g.canceled = false
 	g.arrived = 0
 	g.err = nil
+	// the expected number of arrivals of the previous generation must not constrain the next one
+	g.count = g.initialCount
+	if g.arrived == g.count {
+		g.gateCondition.Broadcast()
+	}
 }
 
 // NewGate returns new gate instance.
 func NewGate(count uint16) Gate {
 	return &gateImpl{
 		count:         count,
+		initialCount:  count,
 		gateCondition: sync.NewCond(&sync.Mutex{}),
 	}
 }
